@@ -52,3 +52,16 @@ func VerifTableParse(md protoreflect.MessageDescriptor, bookOpts *tableaupb.Work
 	}
 	return msg, nil
 }
+
+// VerifDocumentParse parses one document sheet (a node tree as the YAML/XML
+// importers build it) against a message descriptor with the real document parser.
+func VerifDocumentParse(md protoreflect.MessageDescriptor, bookOpts *tableaupb.WorkbookOptions, sheetOpts *tableaupb.WorksheetOptions,
+	sheetName string, doc *book.Node, bookFormat format.Format) (proto.Message, error) {
+	ext := &SheetParserExtInfo{BookFormat: bookFormat, PRFiles: &protoregistry.Files{}}
+	sp := NewExtendedSheetParser("protoconf", "UTC", strcase.Context{}, bookOpts, sheetOpts, ext)
+	msg := dynamicpb.NewMessage(md)
+	if err := sp.Parse(msg, book.NewDocumentSheet(sheetName, doc)); err != nil {
+		return nil, err
+	}
+	return msg, nil
+}
